@@ -18,15 +18,15 @@ RULE = ('cases = one real stack against a scripted conforming peer written from 
         'non-trivial = every exchange; distinct = (layer, role, size class, window class, peer policy)')
 ASSUMPTIONS = ['reference leniencies: FD abort bytes, Multi-PG padding bytes and priorities are not judged; PS of a PDU1 PGN in a BAM announcement is normalised',
                'the reference was validated against the literal frame vectors of the pinned suite (tools/selftest.py)']
-MIN_OBS = {'exchanges': {'quick': 900, 'thorough': 15000}, 'stack_originator': {'quick': 400, 'thorough': 9000}, 'stack_responder': {'quick': 300, 'thorough': 7000},
-           'cts_checked': {'quick': 3000, 'thorough': 80000}, 'dt_checked': {'quick': 20000, 'thorough': 500000}, 'holds_exercised': {'quick': 300, 'thorough': 8000},
-           'zero_latency': {'quick': 80, 'thorough': 2000}}
+MIN_OBS = {'exchanges': {'quick': 2800, 'thorough': 28000}, 'stack_originator': {'quick': 1200, 'thorough': 12000}, 'stack_responder': {'quick': 900, 'thorough': 9000},
+           'cts_checked': {'quick': 30000, 'thorough': 300000}, 'dt_checked': {'quick': 60000, 'thorough': 600000}, 'holds_exercised': {'quick': 2000, 'thorough': 20000},
+           'zero_latency': {'quick': 800, 'thorough': 8000}}
 
 
 def cases(tier, seed):
     rng = random.Random(3000 + seed)
     out = []
-    n = 1000 if tier == 'quick' else 16000
+    n = 3000 if tier == 'quick' else 30000
     for i in range(n):
         out.append(xchg.gen_case(rng))
     for i in range(60 if tier == 'quick' else 600):
